@@ -111,7 +111,12 @@ fn install_failure() -> String {
     }
 }
 
+// only this property's own yield sites take part in the schedule: instrumented code of other
+// properties reached from here (e.g. Key::get_hash under a registry lock) must pass through
+fn own_site(site: u32) -> bool { (2001..=2006).contains(&site) }
+
 fn main() {
+    sched::set_site_filter(Some(own_site));
     let stdin = std::io::stdin();
     let stdout = std::io::stdout();
     let mut w = std::io::BufWriter::new(stdout.lock());
